@@ -2055,7 +2055,7 @@ func freeVarMayBeWritten(fv ssa.Value, depth int) bool {
 func (tr *Tr) ghostFrameTerm(g string, st *State) string {
 	c := tr.contract
 	gd := tr.eng.db.Ghosts[g]
-	if c == nil || gd == nil || tr.topFrame == nil {
+	if c == nil || gd == nil || tr.topFrame == nil || gd.NoFrame {
 		return ""
 	}
 	var keys []*Expr
